@@ -10,7 +10,7 @@ Part 2: the join handle polled / dropped on another thread (labelled transition 
 Compio/Model/RemoteJoin.lean), for every interleaving.
 -/
 import Compio.Lemmas.ExecutorSteps
-import Compio.Lemmas.RemoteJoin
+import Compio.Lemmas.RemoteJoinTie
 import Compio.Gen.TaskOrder
 
 namespace Compio.Props.C04
@@ -27,7 +27,7 @@ theorem source_order_taskCancel : TaskOrder.taskCancel = [
   ("schedule", ""),
   ("set_cancelled", ""),
   ("has_result", ""),
-  ("set_has_result", "if drop_result&&state.has_result()"),
+  ("set_has_result::<Strong,false>", "if drop_result&&state.has_result()"),
   ("drop_future", "if drop_result&&state.has_result()")
 ] := by decide
 
@@ -84,7 +84,7 @@ theorem source_order_remoteSchedule : TaskOrder.remoteSchedule = [
   ("fetch_add", ""),
   ("push", "while-cond shared.sync.push(self.header().id).is_err()"),
   ("wake_by_ref", "if !notified&&letSome(refwaker)=shared.waker"),
-  ("load", "else(!notified&&letSome(refwaker)=shared.waker)"),
+  ("load::<Strong>", "else(!notified&&letSome(refwaker)=shared.waker)"),
   ("is_cancelled", "else(!notified&&letSome(refwaker)=shared.waker)"),
   ("fetch_sub", "if self.header().state.load::<Strong>().is_cancelled()"),
   ("finish_scheduling", "if self.header().state.load::<Strong>().is_cancelled()"),
@@ -126,10 +126,49 @@ theorem source_order_tick : TaskOrder.tick = [
   ("has_hot", "")
 ] := by decide
 
+/-- `TaskQueue::remove`: look the item up, unlink it from the list it IS in (`is_hot` ⇒ hot, else cold), then take it out of the map (the model: `removeTask` erases the id from both lists). A task that woke itself during the poll that returned Ready is hot again when it is removed; the seeded defect C04-2a unlinked from the cold list only. -/
+theorem source_order_queueRemove : TaskOrder.queueRemove = [
+  ("get", ""),
+  ("?", ""),
+  ("unlink::<HOT>", "if is_hot"),
+  ("unlink::<COLD>", "else(is_hot)"),
+  ("remove", ""),
+  ("?", "")
+] := by decide
+
+/-- `Inner::make_hot`: unknown key or already hot ⇒ nothing; else unlink from cold, link to the hot tail (the model: `makeHot`) -/
+theorem source_order_queueMakeHot : TaskOrder.queueMakeHot = [
+  ("get", ""),
+  ("return", "let-else"),
+  ("return", "if item.is_hot"),
+  ("unlink::<COLD>", ""),
+  ("link_tail::<HOT>", "")
+] := by decide
+
+/-- `Inner::make_cold`: unknown key ⇒ nothing; else unlink from hot, link to the cold tail (the model: `makeCold`) -/
+theorem source_order_queueMakeCold : TaskOrder.queueMakeCold = [
+  ("get", ""),
+  ("return", "let-else"),
+  ("unlink::<HOT>", ""),
+  ("link_tail::<COLD>", "")
+] := by decide
+
 /-- `Executor::clear`: empty the sync queue, then drop every task of the map (the model: `clearAll`) -/
 theorem source_order_clear : TaskOrder.clear = [
   ("pop", "while-cond self.shared().sync.pop().is_some()"),
   ("clear", "")
+] := by decide
+
+/-- `Remote::poll`: BOTH `finish_setting_waker::<true>()` call sites (the one that leaves an up-to-date waker in place
+and the one that has just installed a new waker) bind the returned snapshot and go round the loop again when it
+says completed or cancelled — the executor, seeing SETTING_WAKER, skipped the wake-up. This is the premise of
+`remote_delivery`: `RemoteJoin.pollRechecks` is computed from this literal (seeded defect C04-2b dropped the
+re-check on the new-waker site; fix e466077 had introduced both). -/
+theorem source_shape_remote_poll : TaskOrder.remotePollFinishSites = [
+  ("::<true>", "", true),
+  ("::<false>", "if state.has_result()", false),
+  ("::<false>", "if state.is_cancelled()", false),
+  ("::<true>", "if state.has_waker()&&self.header().waker.with(|waker|cx.waker().will_wake(unsafe{(&*waker).assume_init_ref()}))", true)
 ] := by decide
 
 /-- in particular: the cross-thread wake-up / cancellation protocol relies on these three orders -/
@@ -485,6 +524,37 @@ theorem runOne_frame (e : Exec) (id x : Nat) (hx : x ≠ id) : (runOne e id).1.g
     · simp [Exec.get?, scheduleLocal_tasks, Exec.setTask, List.getElem?_set_ne (Ne.symm hx)]
     · rw [remoteScheduleGuarded_get?_ne _ hx]; exact get?_setTask_ne e t' hx
     · simp [Exec.get?, Exec.setTask, List.getElem?_set_ne (Ne.symm hx)]
+    · simp [Exec.get?, scheduleLocal_tasks, Exec.setTask, List.getElem?_set_ne (Ne.symm hx)]
+
+/-- a task whose future finishes leaves BOTH queues — also when it woke itself during that very poll and
+`Local::schedule` had put it back on the hot tail (`queue.remove` must unlink it from the hot list: the
+seeded defect C04-2a unlinked from the cold list only, leaving a dead key as `hot.tail`); the hot queue
+stays duplicate-free with valid ids (`Inv`), so the next `make_hot` / `spawn` links behind a live task -/
+theorem finished_task_leaves_queue (e : Exec) (h : Inv e) (id : Nat) (rest : List Nat) (hh : e.hot = id :: rest)
+    (t : TaskSt) (hg : e.get? id = some t)
+    (hk : (runTask t).2.1 = .finished ∨ (runTask t).2.1 = .finishedWoke) :
+    inMap (tickStep e id).1 id = false ∧ Inv (tickStep e id).1 ∧
+    ∃ w, (tickStep e id).1.hot = rest ++ w ∧ id ∉ w := by
+  obtain ⟨t0, hg0, ht0, sf⟩ := tickStep_facts h hh
+  rw [hg] at hg0; cases hg0
+  have hnd := h.q.hnd
+  rw [hh, List.nodup_cons] at hnd
+  have hout : inMap (tickStep e id).1 id = false := by
+    cases hi : inMap (tickStep e id).1 id
+    · rfl
+    · obtain ⟨t', hg', he | ⟨hk', _⟩⟩ := sf.taskEq
+      · have ht' := sf.inv.t id t' hg'
+        rw [hi] at ht'
+        have hfd := ht'.inq_fd rfl
+        rw [he] at hfd
+        have := ((runTask_spec t ht0).1 (Or.inr hk)).outq_fd rfl
+        omega
+      · rcases hk with hk | hk <;> rw [hk] at hk' <;> cases hk'
+  obtain ⟨w, hw⟩ := sf.hot
+  refine ⟨hout, sf.inv, w, hw, ?_⟩
+  intro hm
+  rw [inMap_false_iff] at hout
+  exact hout (Or.inl (by rw [hw]; simp [hm]))
 
 /-- ... and no other task's membership in the executor's queue -/
 theorem tickStep_queue_frame (e : Exec) (h : Inv e) (id : Nat) (rest : List Nat) (hh : e.hot = id :: rest)
@@ -765,6 +835,20 @@ example : 2 ∈ (tickN (run 64 [.spawn [.wakeSelf, .wakeSelf, .wakeSelf], .spawn
 example : (applyR (run 64 [.spawn [.ready], .tick 61]) (.hcancel 0)).2 = .cancel .ok ∧
     (applyR (run 64 [.spawn [.pending], .tick 61]) (.hcancel 0)).2 = .cancel .cancelled := by decide
 
+/-- wake itself AND finish in the same poll (seeded defect C04-2a): task 0 is removed from the hot list it
+had just re-entered; task 2, which wakes itself afterwards, is linked behind live tasks and polled again -/
+example : let e := run 64 [.spawn [.wakeReady], .spawn [.pending], .spawn [.wakeSelf, .ready]]
+    (applyR e (.tick 61)).2 = .polled [0, 1, 2] true ∧
+    ((apply e (.tick 61)).hot, (apply e (.tick 61)).cold) = ([2], [1]) ∧
+    (applyR (apply e (.tick 61)) (.tick 61)).2 = .polled [2] false ∧
+    ((apply e (.tick 61)).get? 0).map (fun t => (t.polls, t.futDrops, t.word.completed)) = some (1, 1, true) := by decide
+
+example : (applyR (run 64 [.spawn [.wakePanic], .hpoll 0 4]) (.tick 61)).2 = .polled [0] false ∧
+    (run 64 [.spawn [.wakePanic], .hpoll 0 4, .tick 61]).woken = [4] ∧
+    (applyR (run 64 [.spawn [.wakePanic], .hpoll 0 4, .tick 61]) (.hpoll 0 4)).2 = .join .panicked ∧
+    ((run 64 [.spawn [.cloneReady], .tick 61, .hdrop 0, .wake 0, .wdrop 0]).get? 0).map
+      (fun t => (t.deallocs, t.resDrops, t.uaf)) = some (1, 1, 0) := by decide
+
 /-! ### cross-thread operations (the scenarios the seeded defects C04-a, C04-b, C04-c need) -/
 
 /-- handle dropped on another thread while the task is parked: the id goes through the sync queue, the next
@@ -817,72 +901,79 @@ example : (run 64 [.spawn [.pending, .ready], .rhpoll 0 5, .tick 61, .tick 61]).
 
 One task, executor thread `E` and handle thread `H`; every transition is one atomic access to the task
 word (through a function regenerated from task/state.rs) or one access to the waker slot / storage.
-`Reachable true s`: `s` is reached by SOME interleaving of the current `Remote::poll` / `Task::run` /
-`Task::drop` / `Task::cancel` / `impl Drop for Task` programs (`reachable_iff_trace`); the theorems hold
-for ALL of them and for all waker ids. `Reachable false` is the program before fix e466077. -/
+`Reachable pollRechecks s`: `s` is reached by SOME interleaving of `Remote::poll` AS EXTRACTED (`pollRechecks`
+is computed from the shape of its `finish_setting_waker::<true>()` call sites in Gen/TaskOrder.lean: does each
+re-examine the returned snapshot?) with `Task::run` / `Task::drop` / `Task::cancel` / `impl Drop for Task`
+(`reachable_iff_trace`); the theorems hold for ALL of them and for all waker ids. `Reachable false` is the
+program in which a site does not re-check (before fix e466077; seeded defect C04-2b). -/
 
 section remote
 open Compio.RemoteJoin
+
+/-- the source re-checks after `finish_setting_waker::<true>()` at both sites, so the code as extracted is
+the re-checking program of the LTS -/
+theorem remote_poll_as_extracted : pollRechecks = true ∧ ∀ s, Reachable pollRechecks s ↔ Reachable true s :=
+  ⟨pollRechecks_eq, reachable_extracted_iff⟩
 
 /-- reachable states = end states of the event lists accepted by the LTS -/
 theorem remote_reachable_iff_trace (fixed : Bool) (s : RState) :
     Reachable fixed s ↔ ∃ ls : List Label, Trace fixed RemoteJoin.init ls s := reachable_iff_trace
 
 /-- (i) slot exclusivity: no two threads ever have the waker slot as the target of their next access -/
-theorem remote_slot_exclusive (s : RState) (h : Reachable true s) :
-    ¬ (eAccessesSlot s = true ∧ hAccessesSlot s = true) := slot_exclusive h
+theorem remote_slot_exclusive (s : RState) (h : Reachable pollRechecks s) :
+    ¬ (eAccessesSlot s = true ∧ hAccessesSlot s = true) := slot_exclusive (reachable_extracted h)
 
 /-- (i) executor side: E touches the slot only after a snapshot with HAS_WAKER and without SETTING_WAKER,
 while H is not comparing / writing / about to publish; the last holder touches it only when H is gone -/
-theorem remote_slot_section_executor (s : RState) (h : Reachable true s) (he : eAccessesSlot s = true) :
+theorem remote_slot_section_executor (s : RState) (h : Reachable pollRechecks s) (he : eAccessesSlot s = true) :
     (s.hpc ≠ .compare ∧ s.hpc ≠ .write ∧ s.hpc ≠ .finishTrue) ∧
     (s.epc = .wake ∨ s.epc = .dropSlot →
       TaskState.hasWaker s.esnap = true ∧ TaskState.isSettingWaker s.esnap = false) ∧
-    (s.epc = .last → s.hpc = .done) := slot_section_executor h he
+    (s.epc = .last → s.hpc = .done) := slot_section_executor (reachable_extracted h) he
 
 /-- (i) handle side: H compares / writes the slot only inside its SETTING_WAKER section, and then E is
 not at a slot access; the SETTING_WAKER bit is exactly "H is inside the section" -/
-theorem remote_slot_section_handle (s : RState) (h : Reachable true s) :
+theorem remote_slot_section_handle (s : RState) (h : Reachable pollRechecks s) :
     (s.hpc = .compare ∨ s.hpc = .write → TaskState.isSettingWaker s.word = true ∧ eAccessesSlot s = false) ∧
     TaskState.isSettingWaker s.word = hInSection s :=
-  ⟨fun hh => slot_section_handle h hh, setting_waker_iff_in_section h⟩
+  ⟨fun hh => slot_section_handle (reachable_extracted h) hh, setting_waker_iff_in_section (reachable_extracted h)⟩
 
 /-- the future/result storage is never accessed by both threads, and never in the wrong variant; the
 slot is never read or dropped uninitialised -/
-theorem remote_storage_exclusive (s : RState) (h : Reachable true s) :
+theorem remote_storage_exclusive (s : RState) (h : Reachable pollRechecks s) :
     ¬ (eAccessesStorage s = true ∧ hAccessesStorage s = true) ∧ s.bad = 0 :=
-  ⟨storage_exclusive h, no_bad_access h⟩
+  ⟨storage_exclusive (reachable_extracted h), no_bad_access (reachable_extracted h)⟩
 
 /-- (ii) DELIVERY (false before fix e466077: `Compio.Cex.C04.delivery_counterexample_unfixed`): whenever the
 handle's last poll returned Pending with waker `w`, the task has completed and the executor is past
 `Task::run`'s wake decision, `w` has been woken -/
-theorem remote_delivery (s : RState) (h : Reachable true s) (w : Nat) (hp : s.parked = some w)
+theorem remote_delivery (s : RState) (h : Reachable pollRechecks s) (w : Nat) (hp : s.parked = some w)
     (hc : TaskState.isCompleted s.word = true) (he : ePastWake s = true) : w ∈ s.woken :=
-  delivery h w hp hc he
+  delivery (reachable_extracted h) w hp hc he
 
 /-- while the handle is parked with `w` and the task is still running, `w` sits in the slot under
 HAS_WAKER; and it is `w` that the executor's wake reads -/
-theorem remote_parked_waker_in_slot (s : RState) (h : Reachable true s) (w : Nat) (hp : s.parked = some w) :
+theorem remote_parked_waker_in_slot (s : RState) (h : Reachable pollRechecks s) (w : Nat) (hp : s.parked = some w) :
     (TaskState.isCompleted s.word = false →
       (s.epc = .idle ∨ s.epc = .poll ∨ s.epc = .finishRunning ∨ s.epc = .wake ∨ s.epc = .setDropped) →
       s.slot = some w ∧ TaskState.hasWaker s.word = true ∧ TaskState.isSettingWaker s.word = false) ∧
     (s.epc = .wake → s.slot = some w) :=
-  ⟨fun hc hd => pending_means_slot h w hp hc hd, fun he => wake_reads_parked_waker h w hp he⟩
+  ⟨fun hc hd => pending_means_slot (reachable_extracted h) w hp hc hd, fun he => wake_reads_parked_waker (reachable_extracted h) w hp he⟩
 
 /-- (iii) across threads: the output is taken xor dropped at most once, exactly once after deallocation
 iff the task completed; the handle got `Ready(Some)` iff it took the output -/
-theorem remote_result_once (s : RState) (h : Reachable true s) :
+theorem remote_result_once (s : RState) (h : Reachable pollRechecks s) :
     s.resTaken + s.resDrops ≤ 1 ∧
     (s.deallocs = 1 → (s.resTaken + s.resDrops = 1 ↔ TaskState.isCompleted s.word = true)) ∧
     (s.hret = some true ↔ s.resTaken = 1) ∧ (s.hret = some false → TaskState.isCancelled s.word = true) :=
-  ⟨(result_once h).1, (result_once h).2, (join_result h).1, (join_result h).2⟩
+  ⟨(result_once (reachable_extracted h)).1, (result_once (reachable_extracted h)).2, (join_result (reachable_extracted h)).1, (join_result (reachable_extracted h)).2⟩
 
 /-- (iii) the future is polled only while it is there, dropped exactly once, ... -/
-theorem remote_future_once (s : RState) (h : Reachable true s) :
+theorem remote_future_once (s : RState) (h : Reachable pollRechecks s) :
     s.futDrops ≤ 1 ∧ (s.epc = .dec ∨ s.epc = .last ∨ s.epc = .done → s.futDrops = 1) ∧
     (s.futDrops = 0 ↔ s.storage = .future) ∧
     (s.epc = .poll → s.storage = .future ∧ TaskState.isCompleted s.word = false) :=
-  ⟨(future_once h).1, (future_once h).2.1, (future_once h).2.2, fun hp => poll_only_future h hp⟩
+  ⟨(future_once (reachable_extracted h)).1, (future_once (reachable_extracted h)).2.1, (future_once (reachable_extracted h)).2.2, fun hp => poll_only_future (reachable_extracted h) hp⟩
 
 /-- ... and only by the executor thread: every transition that polls or drops the future is the
 executor's, every transition that takes the output is the handle's (any program, any state) -/
@@ -893,22 +984,22 @@ theorem remote_future_on_home_thread (fixed : Bool) (s s' : RState) (l : Label) 
 
 /-- (iii) deallocation exactly once, when both holders are done; the count is the number of holders;
 nothing is accessed after the free -/
-theorem remote_dealloc_once (s : RState) (h : Reachable true s) :
+theorem remote_dealloc_once (s : RState) (h : Reachable pollRechecks s) :
     s.deallocs ≤ 1 ∧ (s.deallocs = 1 ↔ (s.epc = .done ∧ s.hpc = .done)) ∧ s.uaf = 0 ∧
     TaskState.count s.word = (if s.epc = .last ∨ s.epc = .done then 0 else 1) +
       (if s.hpc = .last ∨ s.hpc = .done then 0 else 1) :=
-  ⟨(dealloc_once h).1, (dealloc_once h).2.1, (dealloc_once h).2.2, count_is_holders h⟩
+  ⟨(dealloc_once (reachable_extracted h)).1, (dealloc_once (reachable_extracted h)).2.1, (dealloc_once (reachable_extracted h)).2.2, count_is_holders (reachable_extracted h)⟩
 
 /-- join-waker accounting across threads. The full statement "no waker is left in the slot when the
 allocation is freed" is FALSE on the current code (finding F040,
 `Compio.Cex.C04.waker_leak_counterexample`); what holds: -/
-theorem remote_waker_accounting_partial (s : RState) (h : Reachable true s) :
+theorem remote_waker_accounting_partial (s : RState) (h : Reachable pollRechecks s) :
     s.slotSets = s.slotDrops + (if s.slot.isSome then 1 else 0) ∧
     (TaskState.hasWaker s.word = true → s.deallocs = 0 → s.slot.isSome = true) ∧
     (s.deallocs = 1 →
       (∀ w : Nat, s.slot = some w → s.eroute = .completed ∧ w ∈ s.woken) ∧
       (s.eroute ≠ .completed → s.slot = none ∧ s.slotSets = s.slotDrops)) :=
-  ⟨waker_slot_accounting h, (waker_flag_slot h).1, fun hd => slot_dropped_at_dealloc_partial h hd⟩
+  ⟨waker_slot_accounting (reachable_extracted h), (waker_flag_slot (reachable_extracted h)).1, fun hd => slot_dropped_at_dealloc_partial (reachable_extracted h) hd⟩
 
 end remote
 
